@@ -81,12 +81,15 @@ def _worker(args):
     return run_unit(uid, known, timeout_ms, both)
 
 
-def native(script, payload, timeout=300):
+def native(script, payload, timeout=90):
     """run a /verif/tools script under the repo's interpreter with a JSON payload on stdin"""
     env = dict(os.environ)
     env["PYTHONPATH"] = os.environ["NGO_SRC"] + os.pathsep + HERE
     env["PYTHONHASHSEED"] = "0"
-    r = subprocess.run([VENV_PY, os.path.join(HERE, "tools", script)], input=json.dumps(payload), capture_output=True, text=True, timeout=timeout, env=env)
+    try:
+        r = subprocess.run([VENV_PY, os.path.join(HERE, "tools", script)], input=json.dumps(payload), capture_output=True, text=True, timeout=timeout, env=env)
+    except subprocess.TimeoutExpired:
+        return {"error": "native helper timed out", "confirmed": None}
     try:
         return json.loads(r.stdout.strip().splitlines()[-1])
     except Exception:  # pylint: disable=broad-except
@@ -183,11 +186,22 @@ def run(prop, args, seed, t0):
         rp = {"property": prop, "obligation": o["name"], "solver": o["backend"], "model": o.get("model"), "verdict": o["verdict"]}
         confirmed = None
         if o.get("replay") and o.get("model") is not None:
-            req = {"mirror": o["replay"]["mirror"], "model": o["model"], "extra": o["replay"]}
-            rp["native_request"] = req
-            res = native("replay_native.py", req)
-            rp["native_result"] = res
-            confirmed = res.get("confirmed")
+            tries = o.get("candidates") or [o["model"]]
+            rp["native_attempts"] = []
+            for mdl in tries:
+                req = {"mirror": o["replay"]["mirror"], "model": mdl, "extra": o["replay"]}
+                res = native("replay_native.py", req)
+                rp["native_attempts"].append({"model": mdl, "result": res})
+                if res.get("confirmed") is True:
+                    rp["native_request"] = req
+                    rp["native_result"] = res
+                    rp["model"] = mdl
+                    confirmed = True
+                    break
+                if res.get("confirmed") is False and confirmed is None:
+                    confirmed = False
+            if confirmed is not True and len(rp["native_attempts"]) > 3:
+                rp["native_attempts"] = rp["native_attempts"][:3] + [f"... {len(tries) - 3} more"]
         rp["rerun"] = f"cd /verif && ./check.py {prop} --replay {fname}"
         with open(fname, "w", encoding="utf8") as f:
             json.dump(rp, f, indent=1, default=str)
